@@ -7,6 +7,7 @@ import (
 	"encoding/base64"
 	"fmt"
 	"strings"
+	"testing/synctest"
 	"time"
 
 	"github.com/whawty/auth/zzverif/simrt"
@@ -84,8 +85,10 @@ func propC07(r *Run) {
 				if match == nil {
 					r.Fail("token/forged-accepted", "%s: factory %d accepts %s whose decoded content is not that of any token it issued", what, fi, simrt.Q(s))
 				}
+				// issue stamps are whole seconds rounded DOWN, so the age the factory computes is never
+				// smaller than the real age: an accepted token is really no older than the lifetime
 				age := time.Since(match.at)
-				if age > lts[fi]+time.Second {
+				if age > lts[fi] {
 					r.Fail("token/expired-accepted", "%s: token issued %v ago accepted, lifetime %v", what, age, lts[fi])
 				}
 				if user != match.user || admin != match.admin {
@@ -207,7 +210,7 @@ func propC07(r *Run) {
 				f := facs[fi]
 				now := time.Now().Unix()
 				for _, pt := range []string{
-					fmt.Sprintf("alice:true:%d", now+2), fmt.Sprintf("alice:true:%d", now+100000), fmt.Sprintf("alice:true:%d", now-int64(lts[fi]/time.Second)-2),
+					fmt.Sprintf("alice:true:%d", now+1), fmt.Sprintf("alice:true:%d", now+2), fmt.Sprintf("alice:true:%d", now+100000), fmt.Sprintf("alice:true:%d", now-int64(lts[fi]/time.Second)-2),
 					fmt.Sprintf("alice:TRUE:%d", now), fmt.Sprintf("alice:1:%d", now), fmt.Sprintf("alice:true:%dx", now), fmt.Sprintf("alice:true: %d", now),
 					fmt.Sprintf("alice:true"), "alice", "", fmt.Sprintf("alice:true:%d:extra", now), "alice:true:99999999999999999999", "alice:true:-5", fmt.Sprintf(":true:%d", now),
 				} {
@@ -243,6 +246,64 @@ func propC07(r *Run) {
 				r.Count("fault:restart-new-key")
 				r.Logf("factory %d restarted", fi)
 			}
+		}
+		// concurrent checks on one factory (HTTP handlers share it): two or three goroutines run
+		// Check at the same time; statement boundaries in web_session.go are scheduling points, the
+		// tape decides who advances. Every result must be what the token alone determines.
+		if len(toks) >= 2 && r.Choose("concurrent-checks", 2) == 1 {
+			sched := simrt.NewSched()
+			simrt.S = sched
+			type job struct {
+				t      issuedTok
+				status int
+				user   string
+				admin  bool
+				done   bool
+				pan    any
+			}
+			var jobs []*job
+			for i := 0; i < 2+r.Choose("nconc", 2); i++ {
+				t := toks[r.Choose("conc-token", len(toks))]
+				if t.factory < 0 {
+					continue
+				}
+				j := &job{t: t}
+				jobs = append(jobs, j)
+				name := fmt.Sprintf("checker%d", i)
+				go func() {
+					sched.Register(name)
+					simrt.Yield("start")
+					defer func() { j.pan = recover(); j.done = true }()
+					j.status, _, j.user, j.admin = facs[j.t.factory].Check(j.t.text)
+				}()
+			}
+			for guard := 0; guard < 4000; guard++ {
+				synctest.Wait()
+				rs := sched.Runnable()
+				if len(rs) == 0 {
+					break
+				}
+				sched.Release(rs[r.Choose("conc-who", len(rs))], nil)
+			}
+			simrt.S = nil
+			for _, j := range jobs {
+				presented++
+				if !j.done || j.pan != nil {
+					r.Fail("token/check-panics", "concurrent Check of a token did not complete: %v", j.pan)
+				}
+				age := time.Since(j.t.at)
+				if j.status == 200 {
+					if j.user != j.t.user || j.admin != j.t.admin {
+						r.Fail("token/identity-under-concurrency", "with %d checks in flight a token issued for (%s,%v) opened as (%s,%v)", len(jobs), j.t.user, j.t.admin, j.user, j.admin)
+					}
+					if age > lts[j.t.factory] {
+						r.Fail("token/expired-accepted-under-concurrency", "with %d checks in flight a token issued %v ago was accepted (lifetime %v)", len(jobs), age, lts[j.t.factory])
+					}
+				} else if age <= lts[j.t.factory]-time.Second {
+					r.Fail("token/valid-rejected-under-concurrency", "with %d checks in flight a valid token (age %v, lifetime %v) was rejected with %d", len(jobs), age, lts[j.t.factory], j.status)
+				}
+			}
+			r.Count("probe:concurrent-check-rounds")
 		}
 		r.Add("evaluations", presented)
 		r.Steps += presented
